@@ -1608,7 +1608,6 @@ func (vc *vCtx) forCounted(x *ast.ForStmt, rest []ast.Stmt, lvl int) (string, bo
 // forWhile: any other `for init; cond; post { body }`
 func (vc *vCtx) forWhile(x *ast.ForStmt, rest []ast.Stmt, lvl int) (string, error) {
 	needTie(vc.module)
-	vc.usesFuel = true
 	var sb strings.Builder
 	var initObjs []types.Object
 	if x.Init != nil {
@@ -1666,8 +1665,13 @@ func (vc *vCtx) forWhile(x *ast.ForStmt, rest []ast.Stmt, lvl int) (string, erro
 		return "", err
 	}
 	sb.WriteString(vc.flush(lvl))
-	fmt.Fprintf(&sb, "%s(Gzx.GoM.Ctl.%s (Gzx.GoM.whileLoop (σ := %s) (ρ := %s) (fun %s =>\n%s%s%s) fuel %s)) fun %s =>\n",
-		ind(lvl), vc.then(), vc.sigma(vs), vc.rho(), stVar(vs), vc.unpack(vs, lvl+2), bodyText, ind(lvl+1), vTuple(vs), stVar(vs))
+	fuel, bounded := vc.whileBound(x, vs)
+	if !bounded {
+		fuel = "fuel"
+		vc.usesFuel = true
+	}
+	fmt.Fprintf(&sb, "%s(Gzx.GoM.Ctl.%s (Gzx.GoM.whileLoop (σ := %s) (ρ := %s) (fun %s =>\n%s%s%s) %s %s)) fun %s =>\n",
+		ind(lvl), vc.then(), vc.sigma(vs), vc.rho(), stVar(vs), vc.unpack(vs, lvl+2), bodyText, ind(lvl+1), fuel, vTuple(vs), stVar(vs))
 	sb.WriteString(vc.unpack(vs, lvl))
 	for _, o := range initObjs {
 		delete(vc.objName, o)
@@ -1677,6 +1681,82 @@ func (vc *vCtx) forWhile(x *ast.ForStmt, rest []ast.Stmt, lvl int) (string, erro
 		return "", err
 	}
 	return sb.String() + r, nil
+}
+
+// whileBound: a `for` loop whose condition starts with `v < B` (B loop-invariant, free of checked operations) and whose only
+// assignment to v is one final `v++` (the post statement, or the last top-level statement of the body) makes at most
+// max(0, B - v) iterations: the fuel of the `whileLoop` is computed from the header (`tripUp v B 1 + 1`, the `+ 1` being the
+// final failing test) and the definition needs no `fuel` parameter for this loop.
+func (vc *vCtx) whileBound(x *ast.ForStmt, vs []string) (string, bool) {
+	if x.Cond == nil {
+		return "", false
+	}
+	cs := splitAnd(x.Cond)
+	first, ok := cs[0].(*ast.BinaryExpr)
+	if !ok || first.Op != token.LSS {
+		return "", false
+	}
+	vid, ok := first.X.(*ast.Ident)
+	if !ok {
+		return "", false
+	}
+	v, ok := vc.varOf(vid)
+	if !ok || vc.vtype[v] != "Int" {
+		return "", false
+	}
+	vobj := vc.p.TypesInfo.Uses[vid]
+	if vobj == nil || unsignedBits(vobj.Type()) > 0 {
+		return "", false
+	}
+	if vc.mentions(first.Y, vs) {
+		return "", false
+	}
+	b, ok := vc.pureEx(first.Y, "Int")
+	if !ok {
+		return "", false
+	}
+	isIncV := func(s ast.Stmt) bool {
+		inc, ok := s.(*ast.IncDecStmt)
+		if !ok || inc.Tok != token.INC {
+			return false
+		}
+		id, ok := inc.X.(*ast.Ident)
+		return ok && vc.p.TypesInfo.Uses[id] == vobj
+	}
+	body := x.Body.List
+	switch {
+	case x.Post != nil && isIncV(x.Post):
+	case x.Post == nil && len(body) > 0 && isIncV(body[len(body)-1]):
+		body = body[:len(body)-1]
+	default:
+		return "", false
+	}
+	other := false
+	for _, st := range body {
+		ast.Inspect(st, func(n ast.Node) bool {
+			switch a := n.(type) {
+			case *ast.AssignStmt:
+				for _, l := range a.Lhs {
+					if id, ok := l.(*ast.Ident); ok && vc.p.TypesInfo.Uses[id] == vobj {
+						other = true
+					}
+				}
+			case *ast.IncDecStmt:
+				if id, ok := a.X.(*ast.Ident); ok && vc.p.TypesInfo.Uses[id] == vobj {
+					other = true
+				}
+			case *ast.UnaryExpr:
+				if a.Op == token.AND {
+					other = true // address taken somewhere: give up
+				}
+			}
+			return !other
+		})
+	}
+	if other {
+		return "", false
+	}
+	return fmt.Sprintf("(Gzx.GoM.tripUp %s %s 1 + 1)", v, b), true
 }
 
 // blockThen: the statements, then (if they fall through) the post statement, then `.next state`
